@@ -1349,14 +1349,8 @@ func (c *codegen) Visit(node ast.Node) ast.Visitor {
 			emit.Opcodes(c.prog.BinWriter, opcode.PUSHNULL)
 		} else if fn, ok := c.typeInfo.Uses[n].(*types.Func); ok && fn.Pkg() != nil {
 			// A declared function used as a value (f := helper).
-			f, ok := c.getFuncFromIdent(n)
-			if !ok || f.decl.Recv != nil || f.decl.Body == nil || canInline(f.pkg.Path(), f.decl.Name.Name, false) {
-				c.prog.Err = fmt.Errorf("function %s can't be used as a value", n.Name)
-				return nil
-			}
-			buf := make([]byte, 4)
-			binary.LittleEndian.PutUint16(buf, f.label)
-			emit.Instruction(c.prog.BinWriter, opcode.PUSHA, buf)
+			f, _ := c.getFuncFromIdent(n)
+			c.emitFuncValue(f, n.Name)
 		} else {
 			c.emitLoadVar("", n.Name)
 		}
@@ -1652,6 +1646,11 @@ func (c *codegen) Visit(node ast.Node) ast.Visitor {
 	case *ast.SelectorExpr:
 		typ := c.typeOf(n.X)
 		if c.isInvalidType(typ) {
+			if name, ok := c.importedFuncName(n); ok {
+				// A function of an imported package used as a value (f := pkg.Helper).
+				c.emitFuncValue(c.funcs[name], types.ExprString(n))
+				return nil
+			}
 			// This is a global variable from a package.
 			pkgAlias := n.X.(*ast.Ident).Name
 			name := c.getIdentName(pkgAlias, n.Sel.Name)
@@ -3114,6 +3113,34 @@ func (c *codegen) getFuncFromIdent(fun *ast.Ident) (*funcScope, bool) {
 
 	f, ok := c.funcs[c.getIdentName(pkgName, fun.Name)]
 	return f, ok
+}
+
+// importedFuncName returns the fully-qualified name of the function if e denotes
+// a function of an imported package (pkg.Func).
+func (c *codegen) importedFuncName(e *ast.SelectorExpr) (string, bool) {
+	x, ok := e.X.(*ast.Ident)
+	if !ok {
+		return "", false
+	}
+	if _, ok := c.typeInfo.Uses[x].(*types.PkgName); !ok {
+		return "", false
+	}
+	if _, ok := c.typeInfo.Uses[e.Sel].(*types.Func); !ok {
+		return "", false
+	}
+	return c.getIdentName(x.Name, e.Sel.Name), true
+}
+
+// emitFuncValue pushes the address of the declared function f used as a value
+// under the given name.
+func (c *codegen) emitFuncValue(f *funcScope, name string) {
+	if f == nil || f.decl.Recv != nil || f.decl.Body == nil || canInline(f.pkg.Path(), f.decl.Name.Name, false) {
+		c.prog.Err = fmt.Errorf("function %s can't be used as a value", name)
+		return
+	}
+	buf := make([]byte, 4)
+	binary.LittleEndian.PutUint16(buf, f.label)
+	emit.Instruction(c.prog.BinWriter, opcode.PUSHA, buf)
 }
 
 // getFuncNameFromSelector returns fully-qualified function name from the selector expression.
